@@ -75,7 +75,9 @@ def check_variant(run, nodes, data, ctx, detail, mode, scratch, intended):
     m = rm.run_pipeline(nodes, data, ctx)
     if m.dontcare:
         return None
-    boom, abort = components.VBoomError("prebuilt boom"), components.VAbort("prebuilt abort")
+    # every third failing run: the processor's message quotes an undecodable file name (lone surrogates), control characters
+    _msg = "prebuilt boom" if (run.counters.get("traced_runs", 0) % 3) else "cannot read 'r\udce9sum\udcff.dat' \x00 \U0001f600"
+    boom, abort = components.VBoomError(_msg), components.VAbort("prebuilt abort")
     components.PREBUILT["boom"], components.PREBUILT["abort"] = boom, abort
     odd = None
     for n in nodes:
